@@ -40,7 +40,7 @@ ASSUMPTIONS = ['only one type is skewed at a time; historical cross-type combina
                'of the rename-table clauses only "chains end" and "the loader resolves an old name to what the end of its chain names" are checked (once per interpreter); importability of targets in other packages and "no capture of live class names" are static and not decided here',
                'sampling, not proof']
 PROBES = ['data_v1', 'data_v2', 'data_v3', 'data_v4', 'dc_v1', 'dc_v2', 'dc_v3', 'skew_with_groups', 'skew_with_links', 'skew_with_joins',
-          'registry_shape_checked', 'rename_table_checked', 'registry_version_accepted', 'registry_version_refused']
+          'registry_shape_checked', 'registered_types_found', 'rename_table_checked', 'registry_version_accepted', 'registry_version_refused']
 
 WEIGHTS = dict(c02.WEIGHTS)
 WEIGHTS.pop('new_file', None)
@@ -119,22 +119,83 @@ def generate(rng, cfg, guards):
 simplify = c02.simplify
 
 
+_CANDIDATES = []
+
+
+def candidate_types():
+    """Every class a saver / loader may be registered for, found without looking into the registry: the classes that glue's own
+    modules (and the scientific libraries they name) expose, plus the builtins."""
+    if _CANDIDATES:
+        return _CANDIDATES
+    import builtins
+    import sys
+    import glue.core.state      # noqa (registers everything)
+    seen = set()
+    for name, mod in list(sys.modules.items()):
+        if mod is None or not (name == 'glue' or name.startswith('glue.') or name in ('numpy', 'builtins', 'matplotlib.colors', 'astropy.wcs', 'astropy.units')):
+            continue
+        for attr in list(vars(mod).values()):
+            if isinstance(attr, type) and id(attr) not in seen:
+                seen.add(id(attr))
+                _CANDIDATES.append(attr)
+    import types
+    extra = list(vars(builtins).values()) + [types.FunctionType, types.BuiltinFunctionType, types.MethodType, types.LambdaType]
+    for modname in ('shapely', 'shapely.lib', 'shapely.geometry', 'pandas', 'astropy.table', 'astropy.coordinates'):
+        if modname in sys.modules:
+            extra += list(vars(sys.modules[modname]).values())
+    for attr in extra:
+        if isinstance(attr, type) and id(attr) not in seen:
+            seen.add(id(attr))
+            _CANDIDATES.append(attr)
+    return _CANDIDATES
+
+
+def versions_of(reg, typ):
+    """The versions registered for typ as the public interface shows them: (consecutive versions from 1, newest according to reg[typ],
+    stray versions found below 1 or beyond a gap)."""
+    if typ not in reg:
+        return [], None, []
+    try:
+        newest = reg[typ][1]
+    except (KeyError, ValueError):
+        return [], None, []         # asked about before, never registered (the pinned registry remembers the question)
+    have = []
+    for v in range(0, (newest if isinstance(newest, int) else 0) + 4):
+        try:
+            reg.get_version(typ, v)
+            have.append(v)
+        except KeyError:
+            pass
+    cons = []
+    while len(cons) + 1 in have:
+        cons.append(len(cons) + 1)
+    return cons, newest, [v for v in have if v not in cons]
+
+
 def check_registry(res):
     from glue.core.state import GlueSerializer, GlueUnSerializer
+    # (public interface of the registries only: membership, newest version, get_version)
+    found = {}
     for name, reg in (('saver', GlueSerializer.dispatch), ('loader', GlueUnSerializer.dispatch)):
-        for typ, versions in list(reg._data.items()):
-            vs = sorted(versions)
-            if not vs:
+        found[name] = {}
+        for typ in candidate_types():
+            try:
+                cons, newest, stray = versions_of(reg, typ)
+            except TypeError:
                 continue
-            if vs != list(range(1, len(vs) + 1)):
-                raise Violation('C12/registry-versions-not-consecutive/%s' % name, '%s: %s' % (typ, vs))
-            if reg[typ][1] != len(vs):
-                raise Violation('C12/registry-default-not-newest/%s' % name, '%s' % (typ,))
-    for typ, versions in list(GlueSerializer.dispatch._data.items()):
-        loaders = GlueUnSerializer.dispatch._data.get(typ, {})
+            if newest is None:
+                continue
+            found[name][typ] = cons
+            if stray or not cons:
+                raise Violation('C12/registry-versions-not-consecutive/%s' % name, '%s: consecutive %s, also %s' % (typ, cons, stray))
+            if newest != cons[-1]:
+                raise Violation('C12/registry-default-not-newest/%s' % name, '%s: newest registered %s, default %s' % (typ, cons[-1], newest))
+        res.probe('registered_types_found', len(found[name]))
+    for typ, versions in found['saver'].items():
+        loaders = found['loader'].get(typ, [])
         if not loaders:
             continue        # the statement quantifies over types that have a saver and a loader (Session is re-created by the application)
-        for v in list(versions):
+        for v in versions:
             if v not in loaders:
                 raise Violation('C12/saved-version-without-loader', '%s version %d' % (typ, v))
     res.probe('registry_shape_checked')
